@@ -568,8 +568,39 @@ func (r *router) forward(
 	if err != nil {
 		return nil, fmt.Errorf("failed to exchange, %w", err)
 	}
+	if !isRespOfQuestion(resp, q) {
+		dnsmsg.ReleaseMsg(resp)
+		return nil, errRespQuestionMismatch
+	}
 	dnsmsg.RemoveEDNS0(resp)
 	return resp, nil
+}
+
+var errRespQuestionMismatch = errors.New("question section of the response does not match the query")
+
+// isRespOfQuestion reports whether resp has exactly one question that
+// equals q. Names are compared ASCII-case-insensitively.
+func isRespOfQuestion(resp *dnsmsg.Msg, q *dnsmsg.Question) bool {
+	if len(resp.Questions) != 1 {
+		return false
+	}
+	rq := resp.Questions[0]
+	if rq.Class != q.Class || rq.Type != q.Type || len(rq.Name) != len(q.Name) {
+		return false
+	}
+	for i, c := range rq.Name {
+		c2 := q.Name[i]
+		if 'A' <= c && c <= 'Z' {
+			c += 'a' - 'A'
+		}
+		if 'A' <= c2 && c2 <= 'Z' {
+			c2 += 'a' - 'A'
+		}
+		if c != c2 {
+			return false
+		}
+	}
+	return true
 }
 
 func makeEmptyResp(q *dnsmsg.Question, rc *RequestContext, rcode uint16) {
